@@ -19,7 +19,8 @@ PROPERTY = "C04"
 LEVEL = "exploration"
 DEADLINE = 600
 CHUNK = 1
-RULE = ("cases = MapSpec pipelines from vlib.mapgen (VERIF_SEED), scalar roots sometimes supplied as function defaults; each "
+RULE = ("cases = MapSpec pipelines from vlib.mapgen (VERIF_SEED), scalar roots sometimes supplied as function defaults and sometimes "
+        "as instances of a class defined in the running script's __main__; each "
         "is run by a forked child into a run folder under every persisting storage configuration (file_array; dict and "
         "shared_memory_dict with persist_memory=True; two per-output mixes), sequentially or through a process pool; the child "
         "records load_outputs / RunInfo.load / load_xarray_dataset in the running process and exits (all manager processes "
@@ -66,6 +67,25 @@ def _defaults_variant(case, i):
     return extra, dflt
 
 
+SAMPLE_SRC = '''
+class Sample:
+    """A user class defined in the running script (__main__): stored values must survive in another interpreter."""
+    def __init__(self, text):
+        self.text = text
+    def __str__(self):
+        return self.text
+    __repr__ = __str__
+    def __eq__(self, other):
+        return type(other).__name__ == "Sample" and other.text == self.text
+    def __hash__(self):
+        return hash(self.text)
+'''
+
+
+def _wraps(i):
+    return i % 3 == 2
+
+
 def _run_child(case, cfg, i, folder, out, use_pool):
     sys.stdout.flush()
     sys.stderr.flush()
@@ -77,6 +97,10 @@ def _run_child(case, cfg, i, folder, out, use_pool):
             with contextlib.redirect_stdout(io.StringIO()), contextlib.redirect_stderr(io.StringIO()):
                 extra, dflt = _defaults_variant(case, i)
                 inputs = {k: v for k, v in mapgen.make_inputs(case).items() if k not in dflt}
+                if _wraps(i):
+                    import __main__
+                    exec(SAMPLE_SRC, __main__.__dict__)  # noqa: S102
+                    inputs = {k: (__main__.Sample(v) if isinstance(v, str) else v) for k, v in inputs.items()}
                 pipeline = mapgen.build_pipeline(case, extra=extra)
                 kw = {"parallel": False}
                 ex = None
@@ -136,6 +160,8 @@ def compare(v, case, cfg, i, env, run, fresh, w):
         v.count("run_infos_compared")
         for k, val in given.items():
             kind = "ndarray" if isinstance(val, np.ndarray) else type(val).__name__
+            if _wraps(i) and isinstance(val, str):
+                kind = "Sample"
             got = ri["inputs"].get(k)
             if got is None or got[0] != kind or got[1] != probes.render(val) or (kind == "ndarray" and got[2] != list(val.shape)):
                 v.bad(f"input-roundtrip/{where}", f"input {k} reloads as {got}, given {kind} {probes.render(val)[:100]}", **w)
@@ -200,6 +226,8 @@ def run_case(desc):
                     continue
                 v.count("folders_written")
                 v.count(f"folders:{cfg}")
+                if _wraps(i) and any(r["kind"] == "scalar" for r in case["roots"].values()):
+                    v.count("folders_with_main_class_instances")
                 jobs.append({"id": jid, "folder": folder, "outputs": [o for f in case["funcs"] for o in f["outs"]]})
                 meta[jid] = (case, cfg, i, env, run)
         if jobs:
